@@ -197,7 +197,7 @@ def run_check(prop_id, tier='quick', seed=0, verbose=False):
         except OSError:
             pass
     nshards = nworkers()
-    timeout_s = float(os.environ.get('VERIF_TIMEOUT_S', getattr(prop, 'TIMEOUT_S', {}).get(tier, 420 if tier == 'quick' else 3600)))
+    timeout_s = float(os.environ.get('VERIF_TIMEOUT_S', getattr(prop, 'TIMEOUT_S', {}).get(tier, 1800 if tier == 'quick' else 14400)))
     procs = []
     run_tag = '%s-%s-%d-%d' % (prop_id, tier, seed, os.getpid())
     env_vars = dict(os.environ)
